@@ -204,6 +204,153 @@ theorem agrees_lookup {pinned gen : Table} (h : agrees pinned gen = true)
       have := lookup_of_mem hp ((agrees_sound h (k, v)).mpr (lookup_mem h2))
       rw [h1] at this; cases this
 
+/-- a table is functional when a key has one value only. -/
+def Functional (t : Table) : Prop := ∀ k v w, (k, v) ∈ t → (k, w) ∈ t → v = w
+
+theorem lookup_isSome_of_mem {t : Table} {k v : Nat} (hm : (k, v) ∈ t) : ∃ w, lookup k t = some w := by
+  induction t with
+  | nil => simp at hm
+  | cons p t ih =>
+    obtain ⟨a, b⟩ := p
+    simp only [lookup]
+    by_cases hk : (a == k) = true
+    · exact ⟨b, by simp [hk]⟩
+    · rcases List.mem_cons.mp hm with h | h
+      · have : k = a := congrArg Prod.fst h
+        subst this; simp at hk
+      · obtain ⟨w, hw⟩ := ih h
+        exact ⟨w, by simp [hk, hw]⟩
+
+theorem lookup_of_mem_functional {t : Table} (hf : Functional t) {k v : Nat} (hm : (k, v) ∈ t) :
+    lookup k t = some v := by
+  obtain ⟨w, hw⟩ := lookup_isSome_of_mem hm
+  rw [hw, hf k w v (lookup_mem hw) hm]
+
+/-- tables with the same pairs, one of them functional, answer every question alike. -/
+theorem agrees_lookup_functional {pinned gen : Table} (h : agrees pinned gen = true)
+    (hg : Functional gen) (k : Nat) : lookup k pinned = lookup k gen := by
+  have hp : Functional pinned := fun k v w h1 h2 =>
+    hg k v w ((agrees_sound h _).mp h1) ((agrees_sound h _).mp h2)
+  cases h1 : lookup k pinned with
+  | some v => exact (lookup_of_mem_functional hg ((agrees_sound h (k, v)).mp (lookup_mem h1))).symm
+  | none =>
+    cases h2 : lookup k gen with
+    | none => rfl
+    | some v =>
+      have := lookup_of_mem_functional hp ((agrees_sound h (k, v)).mpr (lookup_mem h2))
+      rw [h1] at this; cases this
+
+theorem bijective_functional_byNum {a b : Table} (h : bijective a b = true) : Functional a :=
+  fun _ _ _ h1 h2 => keysNodup_unique (bijective_parts h).1 h1 h2
+
+theorem bijective_functional_byName {a b : Table} (h : bijective a b = true) : Functional b :=
+  fun _ _ _ h1 h2 => bijective_keys_byName h h1 h2
+
+/-! ### indexes -/
+
+theorem findEnum_mem {ix : EnumIndex} {tag : Nat} {x : Table × Table} (h : findEnum tag ix = some x) :
+    (tag, x.1, x.2) ∈ ix := by
+  induction ix with
+  | nil => simp [findEnum] at h
+  | cons e r ih =>
+    obtain ⟨t, bv, bn⟩ := e
+    simp only [findEnum] at h
+    by_cases ht : (t == tag) = true
+    · simp only [ht, if_true, Option.some.injEq] at h
+      have : t = tag := by simpa using ht
+      subst this; subst h
+      exact List.mem_cons_self
+    · simp only [ht] at h
+      exact List.mem_cons_of_mem _ (ih h)
+
+theorem findMask_mem {ix : MaskIndex} {tag : Nat} {x : List Nat × Table} (h : findMask tag ix = some x) :
+    (tag, x.1, x.2) ∈ ix := by
+  induction ix with
+  | nil => simp [findMask] at h
+  | cons e r ih =>
+    obtain ⟨t, ns, bn⟩ := e
+    simp only [findMask] at h
+    by_cases ht : (t == tag) = true
+    · simp only [ht, if_true, Option.some.injEq] at h
+      have : t = tag := by simpa using ht
+      subst this; subst h
+      exact List.mem_cons_self
+    · simp only [ht] at h
+      exact List.mem_cons_of_mem _ (ih h)
+
+/-- a property of every registered enumeration holds of `enumNames[tag]`/`enumsByName[tag]` for EVERY
+    tag (an unregistered tag reads as two empty maps). -/
+theorem enum_forall {ix : EnumIndex} {P : Table → Table → Prop} (h0 : P [] [])
+    (h : ∀ e ∈ ix, P e.2.1 e.2.2) (tag : Nat) : P (enumByValue ix tag) (enumByName ix tag) := by
+  unfold enumByValue enumByName
+  cases hf : findEnum tag ix with
+  | none => exact h0
+  | some x => exact h _ (findEnum_mem hf)
+
+theorem mask_forall {ix : MaskIndex} {P : List Nat → Table → Prop} (h0 : P [] [])
+    (h : ∀ e ∈ ix, P e.2.1 e.2.2) (tag : Nat) : P (maskNames ix tag) (maskByName ix tag) := by
+  unfold maskNames maskByName
+  cases hf : findMask tag ix with
+  | none => exact h0
+  | some x => exact h _ (findMask_mem hf)
+
+/-- SOUNDNESS of `agreesEnums`: outside the listed exceptions, every enumeration has the same tables on
+    both sides (a tag registered on one side only makes the check fail). -/
+theorem agreesEnums_sound {ex : List Nat} {p g : EnumIndex} (h : agreesEnums ex p g = true)
+    (tag : Nat) (hx : ex.contains tag = false) :
+    agrees (enumByValue p tag) (enumByValue g tag) = true ∧
+      agrees (enumByName p tag) (enumByName g tag) = true := by
+  simp only [agreesEnums, Bool.and_eq_true, List.all_eq_true] at h
+  obtain ⟨⟨⟨⟨hp, hg⟩, _⟩, _⟩, _⟩ := h
+  unfold enumByValue enumByName
+  cases hfp : findEnum tag p with
+  | some x =>
+    have := hp _ (findEnum_mem hfp)
+    simp only at this
+    cases hfg : findEnum tag g with
+    | none => simp [hfg] at this
+    | some y =>
+      obtain ⟨bv, bn⟩ := y
+      simp only [hfg, hx, Bool.false_or, Bool.and_eq_true] at this
+      exact this
+  | none =>
+    cases hfg : findEnum tag g with
+    | none => exact ⟨rfl, rfl⟩
+    | some y =>
+      have := hg _ (findEnum_mem hfg)
+      simp [hfp] at this
+
+theorem natListEq_eq : ∀ {a b : List Nat}, natListEq a b = true → a = b
+  | [], [], _ => rfl
+  | [], _ :: _, h => by simp [natListEq] at h
+  | _ :: _, [], h => by simp [natListEq] at h
+  | x :: s, y :: t, h => by
+    simp only [natListEq, Bool.and_eq_true, beq_iff_eq] at h
+    rw [h.1, natListEq_eq h.2]
+
+/-- SOUNDNESS of `agreesMasks`: same flag names in the same bit positions, same reverse table. -/
+theorem agreesMasks_sound {p g : MaskIndex} (h : agreesMasks p g = true) (tag : Nat) :
+    maskNames p tag = maskNames g tag ∧ agrees (maskByName p tag) (maskByName g tag) = true := by
+  simp only [agreesMasks, Bool.and_eq_true, List.all_eq_true] at h
+  obtain ⟨⟨⟨⟨hp, hg⟩, _⟩, _⟩, _⟩ := h
+  unfold maskNames maskByName
+  cases hfp : findMask tag p with
+  | some x =>
+    have := hp _ (findMask_mem hfp)
+    simp only at this
+    cases hfg : findMask tag g with
+    | none => simp [hfg] at this
+    | some y =>
+      obtain ⟨ns, bn⟩ := y
+      simp only [hfg, Bool.and_eq_true] at this
+      exact ⟨natListEq_eq this.1, this.2⟩
+  | none =>
+    cases hfg : findMask tag g with
+    | none => exact ⟨rfl, rfl⟩
+    | some y =>
+      have := hg _ (findMask_mem hfg)
+      simp [hfp] at this
+
 /-! ## packed names -/
 
 def packFrom (a : Nat) (bs : List Nat) : Nat := bs.foldl (fun a b => a * 256 + b) a
@@ -267,6 +414,11 @@ theorem unpack_pack (bs : List Nat) (hb : ∀ b ∈ bs, b < 256) : unpack (pack 
   rw [pack_eq_packFrom] at hl ⊢
   rw [unpackAux_packFrom bs hb 1 _ [] (Nat.le_refl 1) (by omega), unpackAux_one]
   simp
+
+/-- distinct byte strings have distinct packings. -/
+theorem pack_injective {a b : List Nat} (ha : ∀ x ∈ a, x < 256) (hb : ∀ x ∈ b, x < 256)
+    (h : pack a = pack b) : a = b := by
+  rw [← unpack_pack a ha, ← unpack_pack b hb, h]
 
 theorem validName_eq {n : Nat} (h : validName n = true) : pack (unpack n) = n := by
   simpa [validName] using h
@@ -508,5 +660,509 @@ theorem tagXml_eq {tagNames : Table} (hc : cleanNames tagNames = true) (t : Nat)
   cases hl : lookup t tagNames with
   | none => rfl
   | some n => simp only [clean_ne_empty (cleanName_facts (cleanNames_lookup hc hl)), Bool.false_eq_true, if_false]
+
+/-! ## bit masks: the writer loop as a list of parts -/
+
+/-- `strings.Join(parts, sep)`. -/
+def joinSep (sep : List Nat) : List (List Nat) → List Nat
+  | [] => []
+  | [p] => p
+  | p :: q :: r => p ++ sep ++ joinSep sep (q :: r)
+
+/-- iteration `i` of the writer loop emits something. -/
+def maskWritten (names : List Nat) (v i : Nat) : Bool :=
+  bitSet v i && !(decide (i < names.length) && names.getD i emptyName == emptyName)
+
+/-- … namely the flag name, or the hexadecimal form of the unnamed bit. -/
+def maskPartText (names : List Nat) (i : Nat) : List Nat :=
+  if i < names.length then unpack (names.getD i emptyName) else hex0x 8 (2 ^ i)
+
+def maskParts (names : List Nat) (v : Nat) : Nat → Nat → List (List Nat)
+  | 0, _ => []
+  | n + 1, i =>
+    if maskWritten names v i then maskPartText names i :: maskParts names v n (i + 1)
+    else maskParts names v n (i + 1)
+
+theorem maskLoop_eq (names sep : List Nat) (v : Nat) : ∀ (n i : Nat) (wrote : Bool) (dst : List Nat),
+    maskLoop names sep v n i wrote dst =
+      match maskParts names v n i with
+      | [] => dst
+      | p :: ps => (if wrote then dst ++ sep else dst) ++ joinSep sep (p :: ps) := by
+  intro n
+  induction n with
+  | zero => intro i wrote dst; simp [maskLoop, maskParts]
+  | succ n ih =>
+    intro i wrote dst
+    cases hb : bitSet v i with
+    | false =>
+      have hw : maskWritten names v i = false := by simp [maskWritten, hb]
+      simp only [maskLoop, maskParts, hb, hw, Bool.not_false, if_true, Bool.false_eq_true, if_false]
+      exact ih _ _ _
+    | true =>
+      cases hg : (decide (i < names.length) && names.getD i emptyName == emptyName) with
+      | true =>
+        have hw : maskWritten names v i = false := by unfold maskWritten; rw [hb, hg]; rfl
+        simp only [maskLoop, maskParts, hb, hg, hw, Bool.not_true, Bool.false_eq_true, if_false, if_true]
+        exact ih _ _ _
+      | false =>
+        have hw : maskWritten names v i = true := by unfold maskWritten; rw [hb, hg]; rfl
+        have htxt : ∀ d : List Nat,
+            (if i < names.length then d ++ unpack (names.getD i emptyName) else d ++ hex0x 8 (2 ^ i)) =
+              d ++ maskPartText names i := by
+          intro d; unfold maskPartText; split <;> rfl
+        simp only [maskLoop, maskParts, hb, hg, hw, Bool.not_true, Bool.false_eq_true, if_false, if_true,
+          htxt]
+        rw [ih]
+        cases maskParts names v n (i + 1) with
+        | nil => simp [joinSep]
+        | cons q qs => simp [joinSep, List.append_assoc]
+
+theorem bitSet_zero (i : Nat) : bitSet 0 i = false := by simp [bitSet]
+
+theorem maskParts_zero (names : List Nat) : ∀ n i, maskParts names 0 n i = [] := by
+  intro n
+  induction n with
+  | zero => intro i; rfl
+  | succ n ih => intro i; simp [maskParts, maskWritten, bitSet_zero, ih]
+
+/-- the writer produces the parts joined by the separator. -/
+theorem maskToText_eq (names sep : List Nat) (v : Nat) :
+    maskToText names sep v = joinSep sep (maskParts names v 32 0) := by
+  unfold maskToText
+  by_cases h0 : v = 0
+  · subst h0; simp [maskParts_zero, joinSep]
+  · have : (v == 0) = false := by simpa using h0
+    simp only [this, Bool.false_eq_true, if_false]
+    rw [maskLoop_eq]
+    cases maskParts names v 32 0 with
+    | nil => simp [joinSep]
+    | cons p ps => simp
+
+/-! ## tokenisers -/
+
+/-- a part as the writer emits it: non-empty, without white space and without `|`. -/
+def IsTok (p : List Nat) : Prop := p ≠ [] ∧ ∀ c ∈ p, isSpace c = false ∧ c ≠ 124
+
+theorem fieldsAux_tok (tok : List Nat) (h : ∀ c ∈ tok, isSpace c = false) :
+    ∀ (rest cur : List Nat), fieldsAux (tok ++ rest) cur = fieldsAux rest (cur ++ tok) := by
+  induction tok with
+  | nil => intro rest cur; simp
+  | cons c cs ih =>
+    intro rest cur
+    have hc : isSpace c = false := h c List.mem_cons_self
+    simp only [List.cons_append, fieldsAux, hc, Bool.false_eq_true, if_false]
+    rw [ih (fun x hx => h x (List.mem_cons_of_mem _ hx))]
+    simp
+
+theorem fields_join : ∀ (ps : List (List Nat)) (p : List Nat), (∀ q ∈ p :: ps, IsTok q) →
+    fieldsAux (joinSep [32] (p :: ps)) [] = p :: ps := by
+  intro ps
+  induction ps with
+  | nil =>
+    intro p h
+    have hp := h p List.mem_cons_self
+    have := fieldsAux_tok p (fun c hc => (hp.2 c hc).1) [] []
+    simp only [List.append_nil, List.nil_append] at this
+    simp only [joinSep, this, fieldsAux]
+    have : p.isEmpty = false := by cases p with | nil => exact absurd rfl hp.1 | cons _ _ => rfl
+    simp [this]
+  | cons q r ih =>
+    intro p h
+    have hp := h p List.mem_cons_self
+    have hne : p.isEmpty = false := by cases p with | nil => exact absurd rfl hp.1 | cons _ _ => rfl
+    simp only [joinSep, List.append_assoc, List.singleton_append]
+    rw [fieldsAux_tok p (fun c hc => (hp.2 c hc).1)]
+    have hs : isSpace 32 = true := by decide
+    simp only [List.nil_append, fieldsAux, hs, if_true, hne, Bool.false_eq_true, if_false]
+    rw [ih q (fun x hx => h x (List.mem_cons_of_mem _ hx))]
+
+theorem fields_joinSep (ps : List (List Nat)) (h : ∀ q ∈ ps, IsTok q) :
+    fields (joinSep [32] ps) = ps := by
+  cases ps with
+  | nil => simp [fields, joinSep, fieldsAux]
+  | cons p ps => exact fields_join ps p h
+
+theorem dropWhile_nospace {l : List Nat} (h : ∀ c ∈ l, isSpace c = false) :
+    l.dropWhile isSpace = l := by
+  cases l with
+  | nil => rfl
+  | cons c cs => simp [List.dropWhile, h c List.mem_cons_self]
+
+theorem dropWhile_spaces (l m : List Nat) (h : ∀ c ∈ l, isSpace c = true) :
+    (l ++ m).dropWhile isSpace = m.dropWhile isSpace := by
+  induction l with
+  | nil => rfl
+  | cons c cs ih =>
+    simp only [List.cons_append, List.dropWhile, h c List.mem_cons_self]
+    exact ih (fun x hx => h x (List.mem_cons_of_mem _ hx))
+
+/-- `TrimSpace` removes exactly the white space around a part. -/
+theorem dropWhile_all_spaces (r : List Nat) (hr : ∀ c ∈ r, isSpace c = true) :
+    r.dropWhile isSpace = [] := by
+  have := dropWhile_spaces r [] hr
+  simpa using this
+
+theorem trim_pad (l p r : List Nat) (hl : ∀ c ∈ l, isSpace c = true) (hr : ∀ c ∈ r, isSpace c = true)
+    (hp : ∀ c ∈ p, isSpace c = false) : trim (l ++ p ++ r) = p := by
+  unfold trim
+  rw [List.append_assoc, dropWhile_spaces l _ hl]
+  cases p with
+  | nil =>
+    simp only [List.nil_append]
+    rw [dropWhile_all_spaces r hr]
+    rfl
+  | cons c cs =>
+    have h1 : (c :: cs ++ r).dropWhile isSpace = c :: cs ++ r := by
+      simp [hp c List.mem_cons_self]
+    rw [h1, List.reverse_append,
+      dropWhile_spaces r.reverse _ (by intro x hx; exact hr x (List.mem_reverse.mp hx)),
+      dropWhile_nospace (by intro x hx; exact hp x (List.mem_reverse.mp hx)), List.reverse_reverse]
+
+theorem trim_tok {p : List Nat} (hp : ∀ c ∈ p, isSpace c = false) : trim p = p := by
+  have := trim_pad [] p [] (by simp) (by simp) hp
+  simpa using this
+
+theorem map_trim_toks {ps : List (List Nat)} (h : ∀ q ∈ ps, IsTok q) : ps.map trim = ps := by
+  induction ps with
+  | nil => rfl
+  | cons p ps ih =>
+    simp only [List.map_cons]
+    rw [trim_tok (fun c hc => ((h p List.mem_cons_self).2 c hc).1),
+      ih (fun q hq => h q (List.mem_cons_of_mem _ hq))]
+
+theorem splitOnAux_seg (d : Nat) (seg : List Nat) (h : ∀ c ∈ seg, c ≠ d) :
+    ∀ (rest cur : List Nat), splitOnAux d (seg ++ rest) cur = splitOnAux d rest (cur ++ seg) := by
+  induction seg with
+  | nil => intro rest cur; simp
+  | cons c cs ih =>
+    intro rest cur
+    have hc : (c == d) = false := by simpa using h c List.mem_cons_self
+    simp only [List.cons_append, splitOnAux, hc, Bool.false_eq_true, if_false]
+    rw [ih (fun x hx => h x (List.mem_cons_of_mem _ hx))]
+    simp
+
+theorem split_join : ∀ (ps : List (List Nat)) (p : List Nat), (∀ q ∈ p :: ps, IsTok q) →
+    splitOnAux 124 (joinSep [124] (p :: ps)) [] = p :: ps := by
+  intro ps
+  induction ps with
+  | nil =>
+    intro p h
+    have hp := h p List.mem_cons_self
+    have := splitOnAux_seg 124 p (fun c hc => (hp.2 c hc).2) [] []
+    simp only [List.append_nil, List.nil_append] at this
+    simp [joinSep, this, splitOnAux]
+  | cons q r ih =>
+    intro p h
+    have hp := h p List.mem_cons_self
+    simp only [joinSep, List.append_assoc, List.singleton_append]
+    rw [splitOnAux_seg 124 p (fun c hc => (hp.2 c hc).2)]
+    simp only [List.nil_append, splitOnAux, beq_self_eq_true, if_true]
+    rw [ih q (fun x hx => h x (List.mem_cons_of_mem _ hx))]
+
+/-- `" | "`-separated text: split on `|`, trim. -/
+theorem split3_join : ∀ (ps : List (List Nat)) (p cur : List Nat), (∀ q ∈ p :: ps, IsTok q) →
+    (∀ c ∈ cur, isSpace c = true) →
+    (splitOnAux 124 (joinSep [32, 124, 32] (p :: ps)) cur).map trim = p :: ps := by
+  intro ps
+  induction ps with
+  | nil =>
+    intro p cur h hcur
+    have hp := h p List.mem_cons_self
+    have := splitOnAux_seg 124 p (fun c hc => (hp.2 c hc).2) [] cur
+    simp only [List.append_nil] at this
+    simp only [joinSep, this, splitOnAux, List.map_cons, List.map_nil]
+    have := trim_pad cur p [] hcur (by simp) (fun c hc => (hp.2 c hc).1)
+    simp only [List.append_nil] at this
+    rw [this]
+  | cons q r ih =>
+    intro p cur h hcur
+    have hp := h p List.mem_cons_self
+    simp only [joinSep, List.append_assoc, List.cons_append, List.nil_append]
+    rw [splitOnAux_seg 124 p (fun c hc => (hp.2 c hc).2)]
+    have h32 : (32 == 124) = false := by decide
+    simp only [splitOnAux, h32, Bool.false_eq_true, if_false, beq_self_eq_true, if_true, List.map_cons,
+      List.nil_append]
+    have := trim_pad cur p [32] hcur (by simp [isSpace]) (fun c hc => (hp.2 c hc).1)
+    rw [this]
+    rw [ih q [32] (fun x hx => h x (List.mem_cons_of_mem _ hx)) (by simp [isSpace])]
+
+theorem tok_no_bar {p : List Nat} (h : IsTok p) : p.contains 124 = false := by
+  cases hc : p.contains 124 with
+  | false => rfl
+  | true =>
+    have := List.contains_iff_mem.mp hc
+    exact absurd rfl (h.2 124 this).2
+
+theorem join3_has_bar (p q : List Nat) (r : List (List Nat)) :
+    (joinSep [32, 124, 32] (p :: q :: r)).contains 124 = true := by
+  apply List.contains_iff_mem.mpr
+  simp [joinSep]
+
+theorem filter_nonempty_toks {ps : List (List Nat)} (h : ∀ q ∈ ps, IsTok q) :
+    ps.filter (fun p => !p.isEmpty) = ps := by
+  apply List.filter_eq_self.mpr
+  intro q hq
+  cases q with
+  | nil => exact absurd rfl (h [] hq).1
+  | cons _ _ => rfl
+
+/-! ## bit masks: reading the parts back -/
+
+theorem hexBody_none (u : Bool) {bs : List Nat} (h : startsWith0x bs = false) : hexBody u bs = none := by
+  unfold hexBody
+  split
+  · simp [startsWith0x] at h
+  · simp [startsWith0x] at h
+  · rfl
+
+theorem maskPart_name (u : Bool) (byName : Table) {n : Nat} (f : CleanFacts n) :
+    maskPart u byName (unpack n) = lookup n byName := by
+  unfold maskPart
+  rw [hexBody_none u f.no0x]
+  simp only [f.noInt, f.valid]
+
+theorem toU32_nat {x : Nat} (h : x < 2 ^ 32) : toU32 (x : Int) = x := by
+  unfold toU32; omega
+
+theorem maskPart_hex (u : Bool) (byName : Table) {i : Nat} (hi : i < 31) :
+    maskPart u byName (hex0x 8 (2 ^ i)) = some (2 ^ i) := by
+  have h31 : 2 ^ i < 2 ^ 31 := Nat.pow_lt_pow_right (by decide) hi
+  have h16 : 2 ^ i < 16 ^ 8 := by have : (16 : Nat) ^ 8 = 2 ^ 32 := by decide
+                                  omega
+  have hb : hexBody u (hex0x 8 (2 ^ i)) = some (fmtHex 8 (2 ^ i)) := by simp [hex0x, hexBody]
+  unfold maskPart
+  rw [hb, fmtHex_of_lt h16]
+  simp only [parseInt_hexFixed (by decide : 0 < 8) h16 h31]
+  rw [toU32_nat (by omega)]
+
+theorem flagsOk_spec (byName : Table) : ∀ (names : List Nat) (k : Nat), flagsOk byName k names = true →
+    ∀ j, j < names.length → names.getD j emptyName ≠ emptyName →
+      lookup (names.getD j emptyName) byName = some (2 ^ (k + j)) := by
+  intro names
+  induction names with
+  | nil => intro k _ j hj; simp at hj
+  | cons n t ih =>
+    intro k h j hj hne
+    simp only [flagsOk, Bool.and_eq_true, Bool.or_eq_true] at h
+    cases j with
+    | zero =>
+      simp only [List.getD_cons_zero] at hne ⊢
+      rcases h.1 with h1 | h1
+      · exact absurd (by simpa using h1) hne
+      · cases hl : lookup n byName with
+        | none => simp [hl] at h1
+        | some f =>
+          simp only [hl] at h1
+          have : f = 2 ^ k := by simpa using h1
+          simp [this]
+    | succ j =>
+      simp only [List.getD_cons_succ] at hne ⊢
+      have := ih (k + 1) h.2 j (by simpa using hj) hne
+      rw [this]
+      congr 2; omega
+
+theorem lor_pow {acc i : Nat} (h : acc < 2 ^ i) : acc ||| 2 ^ i = acc + 2 ^ i := by
+  have := Nat.two_pow_add_eq_or_of_lt h 1
+  rw [Nat.mul_one] at this
+  rw [Nat.or_comm, ← this, Nat.add_comm]
+
+theorem window_succ (v i n : Nat) :
+    v / 2 ^ i % 2 ^ (n + 1) * 2 ^ i = v / 2 ^ i % 2 * 2 ^ i + v / 2 ^ (i + 1) % 2 ^ n * 2 ^ (i + 1) := by
+  have h1 : (2 : Nat) ^ (n + 1) = 2 * 2 ^ n := by rw [Nat.pow_succ, Nat.mul_comm]
+  have h2 : v / 2 ^ (i + 1) = v / 2 ^ i / 2 := by rw [Nat.pow_succ, Nat.div_div_eq_div_mul]
+  rw [h1, Nat.mod_mul, h2, Nat.add_mul, Nat.pow_succ]
+  congr 1
+  ac_rfl
+
+/-- hypotheses on a mask registration under which its texts are read back. -/
+structure MaskOk (names : List Nat) (byName : Table) : Prop where
+  flags : ∀ j, j < names.length → lookup (names.getD j emptyName) byName = some (2 ^ j)
+  clean : ∀ j, j < names.length → CleanFacts (names.getD j emptyName)
+
+theorem maskOk_of_checks {names : List Nat} {byName : Table} (hw : maskWF names byName = true)
+    (hc : names.all cleanName = true) : MaskOk names byName := by
+  simp only [maskWF, Bool.and_eq_true] at hw
+  have hcl : ∀ j, j < names.length → CleanFacts (names.getD j emptyName) := by
+    intro j hj
+    apply cleanName_facts
+    have hm : names.getD j emptyName ∈ names := by
+      rw [List.getD_eq_getElem?_getD, List.getElem?_eq_getElem hj]
+      simp
+    exact List.all_eq_true.mp hc _ hm
+  refine ⟨?_, hcl⟩
+  intro j hj
+  have := flagsOk_spec byName names 0 hw.1.2 j hj (by
+    intro e
+    have := clean_ne_empty (hcl j hj)
+    rw [e] at this
+    simp at this)
+  simpa using this
+
+theorem bitSet_ge {v i : Nat} (h : bitSet v i = true) : 2 ^ i ≤ v := by
+  simp only [bitSet, beq_iff_eq] at h
+  have hpos : 0 < 2 ^ i := Nat.two_pow_pos i
+  have : 1 ≤ v / 2 ^ i := by
+    apply Nat.pos_of_ne_zero
+    intro e
+    rw [e] at h
+    simp at h
+  exact (Nat.le_div_iff_mul_le hpos).mp this |> fun h => by simpa using h
+
+theorem maskParts_toks {names : List Nat} {byName : Table} (ok : MaskOk names byName) (v : Nat) :
+    ∀ n i, i + n ≤ 32 → ∀ q ∈ maskParts names v n i, IsTok q := by
+  intro n
+  induction n with
+  | zero => intro i _ q hq; simp [maskParts] at hq
+  | succ n ih =>
+    intro i hin q hq
+    simp only [maskParts] at hq
+    split at hq
+    · rcases List.mem_cons.mp hq with e | e
+      · subst e
+        unfold maskPartText
+        split
+        · rename_i hlt
+          have f := ok.clean i hlt
+          exact ⟨f.ne, fun c hc => ⟨(f.chars c hc).2.1, (f.chars c hc).2.2⟩⟩
+        · have hi : i < 32 := by omega
+          exact hexTok i hi
+      · exact ih (i + 1) (by omega) q e
+    · exact ih (i + 1) (by omega) q hq
+where
+  hexTok : ∀ i, i < 32 → IsTok (hex0x 8 (2 ^ i)) := by
+    intro i hi
+    have h16 : 2 ^ i < 16 ^ 8 := by
+      have : (16 : Nat) ^ 8 = 2 ^ 32 := by decide
+      have := Nat.pow_lt_pow_right (a := 2) (by decide) hi
+      omega
+    refine ⟨by simp [hex0x], ?_⟩
+    intro c hc
+    simp only [hex0x, List.mem_cons] at hc
+    rcases hc with h | h | h
+    · subst h; decide
+    · subst h; decide
+    · rw [fmtHex_of_lt h16] at h
+      have := hexFixed_range 8 _ c h
+      constructor
+      · simp only [isSpace, Bool.or_eq_false_iff, Bool.and_eq_false_iff, beq_eq_false_iff_ne, ne_eq,
+          decide_eq_false_iff_not, Nat.not_le]
+        omega
+      · omega
+
+/-- reading the parts of the bits `i … i+n-1` of `v` on top of the lower bits. -/
+theorem maskFold_parts {names : List Nat} {byName : Table} (ok : MaskOk names byName) (u : Bool)
+    {v : Nat} (hv : v < 2 ^ 31) : ∀ (n i acc : Nat), acc < 2 ^ i →
+    maskFold u byName (maskParts names v n i) acc = some (acc + v / 2 ^ i % 2 ^ n * 2 ^ i) := by
+  intro n
+  induction n with
+  | zero => intro i acc _; simp [maskParts, maskFold, Nat.mod_one]
+  | succ n ih =>
+    intro i acc hacc
+    have hlt2 : v / 2 ^ i % 2 < 2 := Nat.mod_lt _ (by decide)
+    have hpow : (2 : Nat) ^ (i + 1) = 2 ^ i * 2 := by rw [Nat.pow_succ]
+    rw [window_succ]
+    simp only [maskParts]
+    cases hb : bitSet v i with
+    | false =>
+      have hw : maskWritten names v i = false := by simp [maskWritten, hb]
+      have hbit : v / 2 ^ i % 2 = 0 := by
+        simp only [bitSet, beq_eq_false_iff_ne, ne_eq] at hb; omega
+      simp only [hw, Bool.false_eq_true, if_false]
+      rw [ih (i + 1) acc (by omega), hbit]
+      simp
+    | true =>
+      have hbit : v / 2 ^ i % 2 = 1 := by simpa [bitSet] using hb
+      have hgap : (decide (i < names.length) && names.getD i emptyName == emptyName) = false := by
+        by_cases hlt : i < names.length
+        · have := clean_ne_empty (ok.clean i hlt)
+          rw [this]; simp
+        · have : decide (i < names.length) = false := by simpa using hlt
+          rw [this]; rfl
+      have hw : maskWritten names v i = true := by unfold maskWritten; rw [hb, hgap]; rfl
+      have hpart : maskPart u byName (maskPartText names i) = some (2 ^ i) := by
+        unfold maskPartText
+        split
+        · rename_i hlt
+          rw [maskPart_name u byName (ok.clean i hlt), ok.flags i hlt]
+        · have hge := bitSet_ge hb
+          have hi : i < 31 := by
+            apply Classical.byContradiction
+            intro hn
+            have : 2 ^ 31 ≤ 2 ^ i := Nat.pow_le_pow_right (by decide) (by omega)
+            omega
+          exact maskPart_hex u byName hi
+      simp only [hw, if_true, maskFold, hpart]
+      rw [lor_pow hacc, ih (i + 1) (acc + 2 ^ i) (by omega), hbit]
+      congr 1
+      omega
+
+/-- the fold over all 32 positions recovers `v`. -/
+theorem maskFold_all {names : List Nat} {byName : Table} (ok : MaskOk names byName) (u : Bool)
+    {v : Nat} (hv : v < 2 ^ 31) : maskFold u byName (maskParts names v 32 0) 0 = some v := by
+  rw [maskFold_parts ok u hv 32 0 0 (by decide)]
+  have : v % 2 ^ 32 = v := Nat.mod_eq_of_lt (by omega)
+  simp [this]
+
+/-! ## bit masks: the three round trips (every value below 2^31; JSON: except 0) -/
+
+theorem maskXml_roundtrip {names : List Nat} {byName : Table} (ok : MaskOk names byName)
+    {v : Nat} (hv : v < 2 ^ 31) :
+    maskFromTextXml byName (maskToText names [32] v) = some v := by
+  have ht := maskParts_toks ok v 32 0 (by decide)
+  unfold maskFromTextXml
+  rw [maskToText_eq, fields_joinSep _ ht, map_trim_toks ht]
+  exact maskFold_all ok false hv
+
+theorem maskParts_ne_nil (names : List Nat) {byName : Table} (ok : MaskOk names byName) {v : Nat}
+    (h0 : v ≠ 0) (hv : v < 2 ^ 31) : maskParts names v 32 0 ≠ [] := by
+  intro e
+  have := maskFold_all ok false hv
+  rw [e] at this
+  simp only [maskFold, Option.some.injEq] at this
+  exact h0 this.symm
+
+theorem maskJson_roundtrip {names : List Nat} {byName : Table} (ok : MaskOk names byName)
+    {v : Nat} (h0 : v ≠ 0) (hv : v < 2 ^ 31) :
+    maskFromTextJson byName (maskToText names [124] v) = some v := by
+  have ht := maskParts_toks ok v 32 0 (by decide)
+  have hne := maskParts_ne_nil names ok h0 hv
+  unfold maskFromTextJson
+  rw [maskToText_eq]
+  cases hp : maskParts names v 32 0 with
+  | nil => exact absurd hp hne
+  | cons p ps =>
+    rw [hp] at ht
+    have : splitOn 124 (joinSep [124] (p :: ps)) = p :: ps := split_join ps p ht
+    rw [this, map_trim_toks ht, ← hp]
+    exact maskFold_all ok false hv
+
+theorem maskUnmarshal_roundtrip {names : List Nat} {byName : Table} (ok : MaskOk names byName)
+    {v : Nat} (hv : v < 2 ^ 31) :
+    maskFromTextUnmarshal byName (maskToText names [32, 124, 32] v) = some v := by
+  have ht := maskParts_toks ok v 32 0 (by decide)
+  have hall := maskFold_all ok true hv
+  unfold maskFromTextUnmarshal
+  rw [maskToText_eq]
+  cases hp : maskParts names v 32 0 with
+  | nil =>
+    rw [hp] at hall
+    simpa [joinSep, fields, fieldsAux, maskFold] using hall
+  | cons p ps =>
+    rw [hp] at ht hall
+    cases ps with
+    | nil =>
+      have hp1 := ht p List.mem_cons_self
+      have hf : fields p = [p] := by
+        have := fields_joinSep [p] ht
+        simpa [joinSep] using this
+      simp only [joinSep, tok_no_bar hp1, Bool.false_eq_true, if_false, hf]
+      rw [map_trim_toks ht, filter_nonempty_toks ht]
+      exact hall
+    | cons q r =>
+      simp only [join3_has_bar, if_true]
+      have : (splitOn 124 (joinSep [32, 124, 32] (p :: q :: r))).map trim = p :: q :: r :=
+        split3_join (q :: r) p [] ht (by simp)
+      rw [this, filter_nonempty_toks ht]
+      exact hall
 
 end Kmip
